@@ -327,7 +327,15 @@ def run(ctx):
                 if s_["k"] == "assign" and s_["lhs"]["l"] == 0 and s_["rv"]["k"] == "use":
                     pl = s_["rv"]["op"].get("copy") or s_["rv"]["op"].get("move")
                     if pl and pl.get("p") and pl["p"][-1][0] == "f" and len(pl["p"][-1]) > 4 and pl["p"][-1][4] == "f32" and pl["p"][-1][3].startswith(W + "::"):
-                        if any(len(b_.d.get("inputs") or []) >= 2 for _ in [0]):
+                        # ... and whose result is what a sampler hands to format_with_sample_rate as the rate
+                        feeds_rate = False
+                        for cs_ in F.callers_of(b_.path, crates=[W]):
+                            cpr_ = Prov(cs_.body)
+                            for fc in cs_.body.calls():
+                                if fc.is_trait_method("SampledFormat", "format_with_sample_rate") and any(
+                                        ("call", cs_.bb) in cpr_.operand(a_) or ("via", cs_.bb) in cpr_.operand(a_) for a_ in fc.args):
+                                    feeds_rate = True
+                        if feeds_rate and len(b_.d.get("inputs") or []) >= 2:
                             RF, rf_adt = pl["p"][-1][2], pl["p"][-1][3]
     gs = [a for a in F.adts.values() if a["crate"] == W and a["def"] == rf_adt]
     ctx.floor("R12.3", "group-state types holding a sample_rate", len(gs), 1)
@@ -398,12 +406,28 @@ def run(ctx):
     ctx.floor("R12.3", "stores to a group's sample_rate", n3, 3)
     # ------------------------------------------------------------------ R12.4 no group keeps a stale rate across an update
     nl = 0
+    # private methods of the group state that store a fresh rate into `self` on every path: calling one on the loop item is the store
+    store_helpers = set()
+    for adt in gs:
+        for hb in F.all_bodies(W):
+            if "::tests::" in hb.path or hb.kind == "Closure":
+                continue
+            hst = [i for i in hb.live_blocks() for s in hb.stmts(i) if s["k"] == "assign" and s["lhs"]["l"] == 1 and any(
+                e[0] == "f" and e[2] == RF and e[3] == adt["def"] for e in s["lhs"].get("p", []))]
+            if hst and hb.must_pass(hst) and adt["def"] in hb.locals[1]["ty"]:
+                store_helpers.add(hb.def_)
+
+    def rate_stores(b, adt):
+        out = [i for i in b.live_blocks() for s in b.stmts(i) if s["k"] == "assign" and any(
+            e[0] == "f" and e[2] == RF and e[3] == adt["def"] for e in s["lhs"].get("p", []))]
+        if b.def_ not in store_helpers:
+            out += [c.bb for c in b.calls() if any(sb.def_ in store_helpers for sb in local_callee_bodies(F, c))]
+        return out
     for adt in gs:
         for b in F.all_bodies(W):
             if "::tests::" in b.path:
                 continue
-            stores = [i for i in b.live_blocks() for s in b.stmts(i) if s["k"] == "assign" and any(
-                e[0] == "f" and e[2] == RF and e[3] == adt["def"] for e in s["lhs"].get("p", []))]
+            stores = rate_stores(b, adt)
             if not stores:
                 continue
             # loops over the group map whose body stores a rate: every iteration must store one
@@ -504,8 +528,7 @@ def run(ctx):
         for cb in F.all_bodies(W):
             if cb.kind != "Closure" or "::tests::" in cb.path:
                 continue
-            stores = [i for i in cb.live_blocks() for s in cb.stmts(i) if s["k"] == "assign" and any(
-                e[0] == "f" and e[2] == RF and e[3] == adt["def"] for e in s["lhs"].get("p", []))]
+            stores = rate_stores(cb, adt)
             if not stores:
                 continue
             for pb in F.all_bodies(W):
